@@ -4,6 +4,7 @@ package c12
 
 import (
 	"fmt"
+	"os"
 	"sort"
 	"strings"
 	"sync/atomic"
@@ -1247,6 +1248,9 @@ func TestC12(t *testing.T) {
 	h.RunProp(t, permSample, 0)
 	h.RunProp(t, classes, h.N(3000, 60000))
 
+	if os.Getenv("C12_ONLY_RAPID") != "" { // development aid: histogram of the generator alone
+		return
+	}
 	maxN := 3
 	if h.Thorough() {
 		maxN = 4
